@@ -459,6 +459,48 @@ fn execute_selrace(c: &DCfg, seed: u64, n: usize) -> W {
     let wrong = d.iter().position(|(v, a)| *v != ((id_seq(*a) - 1) % 3) as u8);
     let code = if let Some(i) = dup { i as u64 } else if wrong.is_some() || d.is_empty() { u64::MAX - 1 } else { u64::MAX };
     w.ctx.ev(K::Mark, 1, dup.map(|i| d[i].0 as u32).unwrap_or(0), MARK_SELRACE, code, d.len() as u64, n as u8);
+    // third phase: the callback for value 1 is slow (parked at gate 1) while another thread presents
+    // value 2 to the same instance; that call waits its turn and is then delivered
+    let delivered3: Arc<std::sync::Mutex<Vec<(u8, u32)>>> = Arc::new(std::sync::Mutex::new(Vec::new()));
+    let d4 = delivered3.clone();
+    let cx = w.ctx.clone();
+    let sub3 = rs_store::SelectorSubscriber::new(SelSelector, move |v: u8, a: Act| {
+        d4.lock().unwrap().push((v, a.id));
+        if v == 1 {
+            cx.gate_wait(1, 0, a.id);
+        }
+    });
+    let b_called = std::sync::atomic::AtomicBool::new(false);
+    let parked_ok = std::thread::scope(|sc| {
+        let (sub3, b_called, w) = (&sub3, &b_called, &w);
+        let call = move |val: u8, prod: u32| {
+            let mut st = St::initial(0);
+            st.sel = val;
+            st.steps = 1;
+            let act = Act { id: act_id(0, prod, val as u32 + 1), script: 0 };
+            <rs_store::SelectorSubscriber<St, Act, SelSelector, u8> as rs_store::Subscriber<St, Act>>::on_notify(sub3, &st, &act);
+        };
+        std::thread::Builder::new().name("slowcb".into()).spawn_scoped(sc, move || call(1, 20)).unwrap();
+        let ok = w.ctx.gates[1].wait_parked(1);
+        std::thread::Builder::new().name("second".into()).spawn_scoped(sc, move || {
+            b_called.store(true, std::sync::atomic::Ordering::Release);
+            call(2, 21)
+        }).unwrap();
+        while !b_called.load(std::sync::atomic::Ordering::Acquire) {
+            std::thread::yield_now();
+        }
+        for _ in 0..100 {
+            std::thread::yield_now();
+        }
+        if !cfg!(miri) {
+            std::thread::sleep(std::time::Duration::from_micros(300));
+        }
+        w.ctx.gates[1].open();
+        ok
+    });
+    let d = delivered3.lock().unwrap().clone();
+    let good = d.iter().map(|x| x.0).collect::<Vec<_>>() == vec![1, 2];
+    w.ctx.ev(K::Mark, 2, d.len() as u32, MARK_SELRACE, if good || !parked_ok { u64::MAX } else { u64::MAX - 1 }, d.len() as u64, n as u8);
     w.stop(0, STOP_STOP);
     w
 }
@@ -1157,6 +1199,12 @@ pub fn c16(h: &Hist, s: u8, v: &mut Verdicts) {
         let rounds = if cfg!(miri) { 5 } else { 300 };
         for m in marks {
             let how = if m.store == 0 { "in lock step (one new value per round)" } else { "each at its own pace" };
+            if m.store == 2 {
+                if m.x == u64::MAX - 1 {
+                    v.fail("C16", format!("a SelectorSubscriber whose callback for value 1 was still running (parked) was presented value 2 by another thread: {} deliveries were made, expected 1 then 2 (a notification arriving while the instance is busy must wait its turn, not be dropped)", m.y));
+                }
+                continue;
+            }
             if m.x == u64::MAX - 1 {
                 v.fail("C16", format!("a SelectorSubscriber notified by {} threads at once, {}: its {} deliveries are not what the calls presented{}", m.r, how, m.y, if m.store == 0 { " (one per round, that round's value)" } else { "" }));
             } else if m.x != u64::MAX {
